@@ -57,8 +57,8 @@ def logSafeSem (a b : CExpr) (ca cb : CE) : Bool :=
 
 def ternSafeSem (c : CExpr) (cc ca cb : CE) : Bool :=
   match cc.kind with
-  | .lit _ => decide (32 ≤ ca.ty.width) && decide (32 ≤ cb.ty.width) && ca.ty.eqv cb.ty
-  | .boolLit _ => decide (32 ≤ ca.ty.width) && decide (32 ≤ cb.ty.width) && ca.ty.eqv cb.ty
+  | .lit v => liveKeepsTy (v != 0) ca cb
+  | .boolLit r => liveKeepsTy r ca cb
   | _ => condSafe c cc && wideSafeSem ca cb
 
 mutual
@@ -99,6 +99,16 @@ end
 /-- semantic carve-out for an expression used as a VALUE -/
 def CarveESem (asg : List String) (e : CExpr) : Bool := CarveNSem asg e && !isNotLog e
 
+/-- semantic carve-out for an expression in CONDITION position (`if`, `for`): only its truth value is used.  Node-wise
+    carve-out as for a value; at the top a `!`/`&&`/`||` is accepted — the code types such a node like its operand
+    instead of as a 0/1 `int` (`boolOpTypedAsOperand`), but it IS a `BooleanOp` object whose IL boolean both lowerings
+    take as it is (`condILk`, `PKind.boolObj`; the repaired lowering by the BOOL flag it gives the node).  Any other
+    condition is wrapped in `NON_ZERO` by the code iff by the repaired lowering (`condOK`).
+    (The first operand of `?:` is treated the same way inside `CarveNSem`: `CarveNSem c` and `condSafe`.) -/
+def CarveCSem (env : CEnv) (c : CExpr) : Bool :=
+  CarveNSem env.assigned c &&
+  (isNotLog c || (match compileExpr (fixedEnv env) c with | .ok cc => condOK cc | .error _ => true))
+
 /-- `assignCarve` with the semantic conversion test -/
 def assignCarveSem (op : String) (cd ce : CE) : Bool :=
   if op == "=" then castOKSem cd.ty ce
@@ -109,7 +119,8 @@ def assignCarveSem (op : String) (cd ce : CE) : Bool :=
 mutual
 /-- SEMANTIC carve-out of statements (`env.assigned`: operand variables assigned anywhere in the behaviour): `CarveS`
     with `CarveE` replaced by `CarveESem` and `castOK` by `castOKSem`; stored data may be signed when the store
-    narrows or keeps the width; a chained assignment keeps the syntactic carve-out. -/
+    narrows or keeps the width; a chained assignment keeps the syntactic carve-out; the condition of `if`/`for` is in
+    the condition-position carve-out `CarveCSem` (a top-level `!`/`&&`/`||` is accepted there). -/
 def CarveSSem (env : CEnv) : CStmt → Bool
   | .decl _ _ none => true
   | .decl t _ (some e) =>
@@ -129,12 +140,8 @@ def CarveSSem (env : CEnv) : CStmt → Bool
                     else (!ce.ty.signed || decide (w ≤ ce.ty.width))
         | .error _ => true)
   | .ite c t e =>
-      CarveESem env.assigned c && (match compileExpr (fixedEnv env) c with | .ok cc => condOK cc | .error _ => true) &&
-      CarveSsSem env t && (match e with | some e => CarveSsSem env e | none => true)
-  | .for_ _ c step b =>
-      step == 0 && CarveESem env.assigned c &&
-      (match compileExpr (fixedEnv env) c with | .ok cc => condOK cc | .error _ => true) &&
-      CarveSsSem env b
+      CarveCSem env c && CarveSsSem env t && (match e with | some e => CarveSsSem env e | none => true)
+  | .for_ _ c step b => step == 0 && CarveCSem env c && CarveSsSem env b
   | .jump e =>
       CarveESem env.assigned e && (match compileExpr (fixedEnv env) e with
         | .ok ce => ce.ty.width == 32 || castOKSem { signed := false, width := 32, group := 1 } ce
